@@ -86,6 +86,60 @@ static void env_all()
   });
 }
 
+// ------------------------------------------------------------------ multi-argument construction forms
+// emplace(args...) and make_optional<T>(args...) (the variadic constructor is compiled out in the library) must build the payload T(args...): payloads
+// with an initializer_list constructor tell T(args...) from T{args...}
+static const int NFORM = 9;
+static int form_case(int k)
+{
+  using rkcommon::utility::Optional;
+  using rkcommon::utility::make_optional;
+  typedef std::vector<int> VI;
+  std::string what, got, want;
+  auto show = [](const VI &v) {
+    std::string s = "{";
+    for (size_t i = 0; i < v.size(); i++)
+      s += (i ? "," : "") + std::to_string(v[i]);
+    return s + "}";
+  };
+  switch (k) {
+  case 0: { what = "make_optional<vector<int>>(3, 7)"; auto o = make_optional<VI>(3, 7); got = o.has_value() ? show(*o) : "empty"; want = show(VI(3, 7)); break; }
+  case 1: { what = "make_optional<vector<int>>(4)"; auto o = make_optional<VI>(4); got = o.has_value() ? show(*o) : "empty"; want = show(VI(4)); break; }
+  // (make_optional<string>(3, 'x') is left out on purpose: under T{args...} it would not compile (narrowing), and a
+  // harness that stops compiling reports nothing)
+  case 2: { what = "make_optional<vector<int>>(2, 0)"; auto o = make_optional<VI>(2, 0); got = o.has_value() ? show(*o) : "empty"; want = show(VI(2, 0)); break; }
+  case 3: { what = "Optional<vector<int>>::emplace(3, 7)"; Optional<VI> o; o.emplace(3, 7); got = o.has_value() ? show(*o) : "empty"; want = show(VI(3, 7)); break; }
+  case 4: { what = "Optional<vector<int>>::emplace(4) on an engaged wrapper"; Optional<VI> o(VI{1, 2}); o.emplace(4); got = o.has_value() ? show(*o) : "empty"; want = show(VI(4)); break; }
+  case 5: { what = "Optional<string>::emplace(3, 'x')"; Optional<std::string> o; o.emplace(3, 'x'); got = o.has_value() ? *o : "empty"; want = std::string(3, 'x'); break; }
+  case 6: { what = "Optional<vector<int>>(vector<int>(3, 7))"; Optional<VI> o(VI(3, 7)); got = o.has_value() ? show(*o) : "empty"; want = show(VI(3, 7)); break; }
+  case 7: { what = "make_optional<int>(5)"; auto o = make_optional<int>(5); got = o.has_value() ? std::to_string(*o) : "empty"; want = "5"; break; }
+  default: { what = "make_optional<string>(\"abc\")"; auto o = make_optional<std::string>("abc"); got = o.has_value() ? *o : "empty"; want = "abc"; break; }
+  }
+  vr::stat("states");
+  vr::stat("traces");
+  vr::stat("transitions");
+  vr::outcome("form:" + what + ":" + got);
+  if (vr::replaying())
+    printf("%s holds %s want %s\n", what.c_str(), got.c_str(), want.c_str());
+  if (got != want) {
+    report("Optional|multi-argument construction does not build T(args...)|" + what.substr(0, what.find('(')), "form:" + std::to_string(k), what + " holds " + got + " want " + want);
+    return 1;
+  }
+  return 0;
+}
+static void form_all()
+{
+  vr::run_sharded(1, [&](int, long long resume_after) {
+    partial_enter(2000000, resume_after);
+    for (int k = 0; k < NFORM; k++) {
+      if (k <= resume_after)
+        continue;
+      vr::begin_case(k, "Optional|multi-argument construction", "form:" + std::to_string(k));
+      form_case(k);
+    }
+  });
+}
+
 // ------------------------------------------------------------------ driver
 int main(int argc, char **argv)
 {
@@ -105,7 +159,9 @@ int main(int argc, char **argv)
     reexec_symbolized(argv);
     const std::string r = vr::S().replay;
     int rc = 2;
-    if (r.compare(0, 4, "env:") == 0) {
+    if (r.compare(0, 5, "form:") == 0) {
+      rc = form_case(atoi(r.c_str() + 5));
+    } else if (r.compare(0, 4, "env:") == 0) {
       size_t c = r.find(':', 4);
       rc = env_case(r.substr(4, c - 4), atoi(r.c_str() + c + 1));
     } else if (r.compare(0, 6, "align:") == 0) {
@@ -143,8 +199,10 @@ int main(int argc, char **argv)
     vr::note(std::string("payload ") + p.name + ": depth <= " + std::to_string(depth) + " requested, " + std::to_string(vr::S().stats["states"] - before) +
         " histories, " + std::to_string((int)(vr::now_s() - t0)) + " s");
   }
-  if (only.empty())
+  if (only.empty()) {
     env_all();
+    form_all();
+  }
   partial_merge();
   partial_cleanup();
   return vr::finish();
